@@ -565,7 +565,10 @@ class History:
             elif name == 'func':
                 m.gen += 1
                 m.obj.func = self._callback(m.rid, m.gen)
-                if m.oneshot and not m.fired:
+                # (the one-shot wrapper is the function: replacing it on a
+                # live responder drops the one-shot, also when the responder
+                # was armed a second time after an earlier replacement)
+                if m.oneshot and not m.freed:
                     m.oneshot = False
                     m.oneshot_fuzzy = True
                 self.labels.add('func_replaced')
